@@ -184,6 +184,9 @@ class VersionedFileCommitBuilder(CommitBuilder):
         # memo'd check for no-op commits.
         self._any_changes = False
         self._owns_transaction = owns_transaction
+        # (new path, file id, ids of the children in the basis) of entries
+        # that were directories in the basis and are recorded as something else
+        self._former_directories = []
 
     def any_changes(self):
         """Return True if any entries were changed.
@@ -310,6 +313,21 @@ class VersionedFileCommitBuilder(CommitBuilder):
             self._new_revision_id,
             self.parents,
         )
+        # A partial commit (e.g. commit --exclude) can drop the change that
+        # removes or moves a child while keeping the change that turns its
+        # parent directory into a file or symlink.  Applying the delta does
+        # not notice, and the resulting inventory cannot be read back.
+        for new_path, file_id, child_ids in self._former_directories:
+            for child_id in child_ids:
+                if (
+                    self._new_inventory.has_id(child_id)
+                    and self._new_inventory.get_entry(child_id).parent_id == file_id
+                ):
+                    raise errors.InconsistentDelta(
+                        new_path,
+                        file_id,
+                        "Entry is no longer a directory but still has children",
+                    )
         return self._new_revision_id
 
     def _gen_revision_id(self):
@@ -513,6 +531,17 @@ class VersionedFileCommitBuilder(CommitBuilder):
                 #  - record the change with the content from tree
                 kind = change.kind[1]
                 file_id = change.file_id
+                if change.kind[0] == "directory" and kind != "directory":
+                    self._former_directories.append(
+                        (
+                            change.path[1],
+                            file_id,
+                            [
+                                child.file_id
+                                for child in basis_inv.get_children(file_id).values()
+                            ],
+                        )
+                    )
                 entry_name = change.name[1]
                 entry_parent_id = change.parent_id[1]
                 entry_kwargs: dict = {}
